@@ -245,7 +245,25 @@ def suppliedArgs (s : Stmt) (data : Bytes) : Option (List Arg × List (Option Te
     | .ok args => some (args, temporals nullBitmaps types values s.args s.paramCount 0 0)
     | _ => none
 
+/-- The packet supplies a NaN or an infinity for a FLOAT / DOUBLE parameter
+    (and is well formed up to there): the reference binding stops with `badFloat`. -/
+def suppliesNonFinite (s : Stmt) (data : Bytes) : Bool :=
+  if s.paramCount = 0 then false
+  else
+    let nbl := (s.paramCount + 7) / 8
+    let nullBitmaps := (data.drop 9).take nbl
+    let flag := (data.drop (9 + nbl)).head?
+    let (types, values) :=
+      if flag == some 1 then ((data.drop (10 + nbl)).take (2 * s.paramCount), data.drop (10 + nbl + 2 * s.paramCount))
+      else (s.paramTypes, data.drop (10 + nbl))
+    match bindStmtArgs s.paramCount s.args nullBitmaps types values with
+    | .err .badFloat => true
+    | _ => false
+
 def judgeExec (nbe : Bool) (s : Stmt) (data sql : Bytes) : String :=
+  -- no numeric literal denotes a NaN or an infinity (`float_param_numeric_literal`, `denotesDouble`):
+  -- whatever statement is executed for such a parameter, its value is not preserved
+  if suppliesNonFinite s data then "viol nonfinite-float-executed" else
   match suppliedArgs s data, lex nbe s.sql, lex nbe sql with
   | some (args, tms), some tpl, some got => walk nbe tpl args tms got
   | some _, some _, none => "viol literal-unterminated"
